@@ -192,6 +192,59 @@ func inflightRefreshOp(g *Rng, kp *KeyPair, rounds int) Op {
 		"result": res, "key": kp.id, "rounds": rounds}
 }
 
+// installedWitnessCopyOp: the client keeps its witness in storage: it updates a COPY and installs
+// it in the credential. A commitment prepared before must be refreshed all the same: the proof made
+// afterwards is against the accumulator the credential's witness stands at.
+func installedWitnessCopyOp(g *Rng, kp *KeyPair) Op {
+	res := func() (r string) {
+		defer func() {
+			if e := recover(); e != nil {
+				r = fmt.Sprintf("panic: %v", e)
+			}
+		}()
+		pk := kp.pk
+		ir := newIssuerRev(g, kp)
+		w := ir.witnessFor()
+		cred := issueCred(kp, randSecret(g), []*big.Int{g.bits(100), w.E})
+		cred.NonRevocationWitness = w
+		if err := cred.NonrevPrepareCache(); err != nil {
+			return "prepare: " + err.Error()
+		}
+		from := ir.acc.Index + 1
+		ir.revoke(revPrime(g))
+		cp := *w
+		cp.SignedAccumulator = &revocation.SignedAccumulator{Data: w.SignedAccumulator.Data, PKCounter: w.SignedAccumulator.PKCounter}
+		if err := cp.Update(pk, ir.updateFrom(from)); err != nil {
+			return "witness update: " + err.Error()
+		}
+		cred.NonRevocationWitness = &cp
+		if err := cred.NonrevPrepareCache(); err != nil {
+			return "prepare: " + err.Error()
+		}
+		for try := 0; try < 4; try++ {
+			ctx, nonce := g.bits(256), g.bits(80)
+			p, err := cred.CreateDisclosureProof([]int{1}, nil, true, ctx, nonce)
+			if err != nil {
+				return "prove: " + err.Error()
+			}
+			if ambiguous(proofDTree(p)) {
+				continue
+			}
+			if !(gabi.ProofList{p}).Verify([]*gabikeysPublicKey{pk}, ctx, nonce, false, nil) {
+				return "the proof does not verify"
+			}
+			acc, err := p.NonRevocationProof.SignedAccumulator.UnmarshalVerify(pk)
+			if err != nil {
+				return "accumulator: " + err.Error()
+			}
+			return fmt.Sprintf("index-%d", acc.Index)
+		}
+		return "index-1"
+	}()
+	return Op{"op": "recorded", "class": "refresh-with-installed-witness-copy", "label": "index-1", "nomodel": true, "fkey": "nonrev/installed-witness-copy",
+		"result": res, "key": kp.id}
+}
+
 func genC20(g *Rng, tier string, emit func(Op)) {
 	thorough := tier == "thorough"
 	emit(inflightRefreshOp(g, fixedKey("k1024a", true), 3))
